@@ -433,4 +433,68 @@ theorem receiver_accepts (env : TypeEnv) (emb : List String) (enforce hasDefault
   simp only [hexp, if_true, List.append_nil, List.nil_append]
   exact hcommon
 
+
+/-! ### … and back: what the link validator accepts IS well-linked (up to the open finding C10-F2) -/
+
+/-- **An accepted route is well-linked** - the converse of `wellLinked_accepted`, assembled from `link_injective`,
+    `linkValidate_nil_parts`, `params_referenced` and `goPath_values_nodup`.  Hypotheses: `hF2` is open finding C10-F2 (an
+    un-aliased @Path whose name is no `{name}` is never reported); an EMPTY alias is read as "no alias" by the validator
+    and is no alias in the property's wording (`hAlias`); the parameters have pairwise different names, as Go demands
+    (`hnd`). -/
+theorem accepted_is_wellLinked_partial (ctrlRoute : String) (m : Method) (h : linkValidate ctrlRoute m = [])
+    (hnd : (m.params.map (·.name)).eraseDups.length = m.params.length)
+    (hAlias : ∀ a ∈ m.annots.filter (·.name = "Path"), aliasOf a ≠ .ok "")
+    (hF2 : ∀ a ∈ m.annots.filter (·.name = "Path"), (∀ al, aliasOf a = .ok al → al = "") →
+        a.value ∈ extractUrlParams (ctrlRoute ++ ((m.annots.filter (·.name = "Route")).head?.map (·.value)).getD "")) :
+    WellLinked ctrlRoute m := by
+  obtain ⟨hurlref, hpath, hothers⟩ := linkValidate_nil_parts ctrlRoute m h
+  obtain ⟨i1, i2, i3, _i4⟩ := link_injective ctrlRoute m h
+  have hvals : ((m.annots.filter (·.name = "Path")).map (·.value)).Nodup := by
+    have h' := h
+    unfold linkValidate at h'
+    simp only [List.append_eq_nil_iff] at h'
+    obtain ⟨⟨⟨_, h2⟩, _⟩, _⟩ := h'
+    exact (goPath_values_nodup _ _ _ [] [] [] h2).1
+  refine ⟨i1, ?_, ?_, ?_, ?_, hvals, i2, ?_, ?_⟩
+  · intro a ha
+    refine ⟨(hpath a ha).2.1, ?_⟩
+    intro al hal he
+    exact hAlias a ha (he ▸ hal)
+  · intro a ha al hal
+    have hne : al ≠ "" := fun he => hAlias a ha (he ▸ hal)
+    exact List.contains_iff_mem.1 ((hpath a ha).2.2 al hal hne)
+  · intro p hp
+    by_cases hpe : p = ""
+    · -- `{}`: some @Path is referenced under the empty name; with no empty alias that is its own (empty) value
+      have := List.contains_iff_mem.1 (hurlref p hp)
+      obtain ⟨a, ha, han⟩ := List.mem_map.1 this
+      refine List.mem_map.2 ⟨a, ha, ?_⟩
+      unfold refName at han
+      unfold urlName
+      cases hal : aliasOf a with
+      | none => rw [hal] at han; exact han
+      | bad => rw [hal] at han; exact han
+      | ok al =>
+        rw [hal] at han
+        simp only at han
+        exact absurd (by rw [hal, han, hpe]) (hAlias a ha)
+    · exact i3 p hp hpe
+  · intro a ha
+    exact List.contains_iff_mem.1 (hpath a ha).1
+  · intro a ha hb hnb
+    exact List.contains_iff_mem.1 (hothers a ha hb hnb)
+  · intro p hp hctx
+    obtain ⟨a, ha, hk, hv⟩ := params_referenced ctrlRoute m hnd h p hp hctx
+    exact ⟨a, ha, hk, hv⟩
+
+/-- **The link validator accepts exactly the well-linked routes**, for routes whose parameters are distinctly named,
+    whose aliases are not empty strings, and up to C10-F2. -/
+theorem link_accepts_iff_partial (ctrlRoute : String) (m : Method)
+    (hnd : (m.params.map (·.name)).eraseDups.length = m.params.length)
+    (hAlias : ∀ a ∈ m.annots.filter (·.name = "Path"), aliasOf a ≠ .ok "")
+    (hF2 : ∀ a ∈ m.annots.filter (·.name = "Path"), (∀ al, aliasOf a = .ok al → al = "") →
+        a.value ∈ extractUrlParams (ctrlRoute ++ ((m.annots.filter (·.name = "Route")).head?.map (·.value)).getD "")) :
+    linkValidate ctrlRoute m = [] ↔ WellLinked ctrlRoute m :=
+  ⟨fun h => accepted_is_wellLinked_partial ctrlRoute m h hnd hAlias hF2, wellLinked_accepted ctrlRoute m⟩
+
 end Gleece.Validate
